@@ -33,6 +33,8 @@ CONSTANTS B,            \* branching factor
           Twins,        \* set of <<a, b>>: same-depth nodes that are the same position (equal keys)
           MaxBudget,    \* node budgets 0..MaxBudget are explored, and "none"
           AbortChecked, \* repaired code: re-test running/limits after each child returns
+          InteriorEval, \* static evaluation of the nodes above the deepest level (seen by the shallower iterations)
+          RootTestFirst, \* the root tests stop/limits BEFORE it compares the child's score with alpha (the code's order)
           Fallback      \* repaired code: first root move when no iteration completed
 
 INF == 100
@@ -75,7 +77,7 @@ MaxOf(S) == CHOOSE x \in S : \A y \in S : y <= x
     answers = 0;
 
   define {
-    Eval(n) == IF n \in Deepest THEN leaf[n] ELSE 0
+    Eval(n) == IF n \in Deepest THEN leaf[n] ELSE InteriorEval
     RECURSIVE LookVal(_, _)
     LookVal(n, d) == IF d = 0 \/ Kids(n) = {} THEN Eval(n)
                      ELSE MaxOf({0 - LookVal(k, d - 1) : k \in Kids(n)})
@@ -160,13 +162,14 @@ MaxOf(S) == CHOOSE x \in S : \A y \in S : y <= x
           call ab(rm, -INF, 0 - ra, dr - 1);
   t3:     rsc := 0 - ret; unsound := unsound \/ ~Judge(-INF, 0 - ra, ret, rm, dr - 1);
         };
+  sj:   if (~RootTestFirst /\ rsc > ra) { ra := rsc; rbest := rm; rpv := TRUE; };   \* the other order: the dummy 0 of an interrupted child competes
   sk:   if (~running \/ Exceeded) {
           if (Exceeded) { running := FALSE; };
           \* do not throw out a partial search just because the current move was not searched
           if (bestScore # -1000 /\ ra > bestScore) { bestScore := ra; bestMove := rbest; };
           return;
         };
-  su:   if (rsc > ra) { ra := rsc; rbest := rm; rpv := TRUE; };
+  su:   if (RootTestFirst /\ rsc > ra) { ra := rsc; rbest := rm; rpv := TRUE; };
       };
   sf: if (running /\ ~Exceeded) {                                   \* do not save incomplete searches
         tt[Key(1)] := [score |-> ra, depth |-> dr, bound |-> "E", best |-> rbest];
@@ -203,7 +206,7 @@ VARIABLES pc, leaf, budget, running, nodes, abortSeen, wroteDirty, unsound,
           tt, ret, bestMove, bestScore, done, info, answer, answers, stack
 
 (* define statement *)
-Eval(n) == IF n \in Deepest THEN leaf[n] ELSE 0
+Eval(n) == IF n \in Deepest THEN leaf[n] ELSE InteriorEval
 RECURSIVE LookVal(_, _)
 LookVal(n, d) == IF d = 0 \/ Kids(n) = {} THEN Eval(n)
                  ELSE MaxOf({0 - LookVal(k, d - 1) : k \in Kids(n)})
@@ -709,6 +712,20 @@ sl(self) == /\ pc[self] = "sl"
                             unsound, tt, ret, bestMove, bestScore, done, info, 
                             answer, answers, dr, ra, rsc, rpv, rbest, d >>
 
+sj(self) == /\ pc[self] = "sj"
+            /\ IF ~RootTestFirst /\ rsc[self] > ra[self]
+                  THEN /\ ra' = [ra EXCEPT ![self] = rsc[self]]
+                       /\ rbest' = [rbest EXCEPT ![self] = rm[self]]
+                       /\ rpv' = [rpv EXCEPT ![self] = TRUE]
+                  ELSE /\ TRUE
+                       /\ UNCHANGED << ra, rpv, rbest >>
+            /\ pc' = [pc EXCEPT ![self] = "sk"]
+            /\ UNCHANGED << leaf, budget, running, nodes, abortSeen, 
+                            wroteDirty, unsound, tt, ret, bestMove, bestScore, 
+                            done, info, answer, answers, stack, nd, alpha, 
+                            beta, dp, a, bb, rem, m, sc, pv, bestk, dr, rrem, 
+                            rm, rsc, d >>
+
 sk(self) == /\ pc[self] = "sk"
             /\ IF ~running \/ Exceeded
                   THEN /\ IF Exceeded
@@ -737,7 +754,7 @@ sk(self) == /\ pc[self] = "sk"
                             alpha, beta, dp, a, bb, rem, m, sc, pv, bestk, d >>
 
 su(self) == /\ pc[self] = "su"
-            /\ IF rsc[self] > ra[self]
+            /\ IF RootTestFirst /\ rsc[self] > ra[self]
                   THEN /\ ra' = [ra EXCEPT ![self] = rsc[self]]
                        /\ rbest' = [rbest EXCEPT ![self] = rm[self]]
                        /\ rpv' = [rpv EXCEPT ![self] = TRUE]
@@ -780,7 +797,7 @@ t1(self) == /\ pc[self] = "t1"
                        /\ pv' = [pv EXCEPT ![self] = FALSE]
                        /\ bestk' = [bestk EXCEPT ![self] = 0]
                        /\ pc' = [pc EXCEPT ![self] = "e0"]
-                  ELSE /\ pc' = [pc EXCEPT ![self] = "sk"]
+                  ELSE /\ pc' = [pc EXCEPT ![self] = "sj"]
                        /\ UNCHANGED << stack, nd, alpha, beta, dp, a, bb, rem, 
                                        m, sc, pv, bestk >>
             /\ UNCHANGED << leaf, budget, running, nodes, abortSeen, 
@@ -791,7 +808,7 @@ t1(self) == /\ pc[self] = "t1"
 t2(self) == /\ pc[self] = "t2"
             /\ rsc' = [rsc EXCEPT ![self] = 0 - ret]
             /\ unsound' = (unsound \/ ~Judge(-INF, 0 - ra[self], ret, rm[self], dr[self] - 1))
-            /\ pc' = [pc EXCEPT ![self] = "sk"]
+            /\ pc' = [pc EXCEPT ![self] = "sj"]
             /\ UNCHANGED << leaf, budget, running, nodes, abortSeen, 
                             wroteDirty, tt, ret, bestMove, bestScore, done, 
                             info, answer, answers, stack, nd, alpha, beta, dp, 
@@ -801,7 +818,7 @@ t2(self) == /\ pc[self] = "t2"
 t3(self) == /\ pc[self] = "t3"
             /\ rsc' = [rsc EXCEPT ![self] = 0 - ret]
             /\ unsound' = (unsound \/ ~Judge(-INF, 0 - ra[self], ret, rm[self], dr[self] - 1))
-            /\ pc' = [pc EXCEPT ![self] = "sk"]
+            /\ pc' = [pc EXCEPT ![self] = "sj"]
             /\ UNCHANGED << leaf, budget, running, nodes, abortSeen, 
                             wroteDirty, tt, ret, bestMove, bestScore, done, 
                             info, answer, answers, stack, nd, alpha, beta, dp, 
@@ -835,8 +852,8 @@ sf(self) == /\ pc[self] = "sf"
                             answer, answers, nd, alpha, beta, dp, a, bb, rem, 
                             m, sc, pv, bestk, d >>
 
-root(self) == s0(self) \/ sl(self) \/ sk(self) \/ su(self) \/ t1(self)
-                 \/ t2(self) \/ t3(self) \/ sf(self)
+root(self) == s0(self) \/ sl(self) \/ sj(self) \/ sk(self) \/ su(self)
+                 \/ t1(self) \/ t2(self) \/ t3(self) \/ sf(self)
 
 it == /\ pc["searcher"] = "it"
       /\ IF d <= D
@@ -965,6 +982,9 @@ InfoOrdered == \A i \in 1..Len(info) : info[i] = i
 AllDepths == (Finished /\ budget = 1000 /\ pc["stopper"] = "x0") => Len(info) = D
 \* a partial result is adopted only on top of a completed iteration
 PartialSound == bestMove # 0 => Len(done) >= 1
+\* the answer comes from completed work: the score kept with the best move is that move's look-ahead value at the
+\* depth of some iteration (probes off) - never the dummy value of an interrupted child
+AnswerIsAValue == (bestMove # 0 /\ ~UseTT) => \E dd \in 1..D : bestScore = 0 - LookVal(bestMove, dd - 1)
 
 Terminates == <>Finished
 =============================================================================
